@@ -297,7 +297,7 @@ def run(ctx):
                 ctx.sample({"config": cfg, "catalog_sizes": [len(c) for c in fc["cats"]], "n_observed": len(fc["obs"]),
                             "histories": "all of length <= %d" % (3 if thorough else 2)})
     # random longer histories
-    for j in range((4000 if thorough else 300) // ctx.nshards):
+    for j in range((24000 if thorough else 300) // ctx.nshards):
         r = ctx.rng("c13", j)
         cfg = cfgs[int(r.integers(0, len(cfgs)))]
         fc = gen_forecast(r, cfg)
